@@ -36,8 +36,22 @@ RULE = ("histories of 2..4 writers (XML / protobuf; precisions 1..12 incl. the d
         "interleaved in random order (the same writer twice, identical writers, other precision / other format in between, "
         "writes after a raising write), the clock scripted per call from 3 dates (10%: real clock), file names: default, a "
         "pool of 3 names that collide, rarely ''; modes ALWAYS / SKIP / ASK (scripted answer); 0..2 files existing beforehand "
-        "(30% of them empty); distinct = canonical JSON of the history; non-trivial = a history with >= 2 performed writes")
-ASSUMPTIONS = ["the model's Input is a value: that a write call leaves the scenario / planning-problem objects it was given as they "
+        "(30% of them empty). Per DIMENSIONS (checked against the real signatures every run): each of author / affiliation / "
+        "source / tags / location explicit or not per writer, precision as int or numpy.int64, facade without file_format, empty "
+        "planning-problem set, empty tags, int coordinates, a 1e8 coordinate, traffic sign / light; between calls: user code "
+        "assigns precision.decimals, setters (author, affiliation, source, tags, location, root_node) on any live writer, "
+        "in-place edits of the scenario / planning-problem set (6 kinds), read-only queries of the scenario (7 kinds) and of the "
+        "writer (root_node, check_validity_of_commonroad_file); write options check_validity=True, keyword arguments; failing "
+        "calls: a name in a directory that does not exist, input() raising EOFError — followed by further calls; "
+        "distinct = canonical JSON of the history; non-trivial = a history with >= 2 performed writes")
+ASSUMPTIONS = ["setters and in-place edits between two writes are outside the property's quantifier (constructions and write calls) and "
+               "outside the model's operations; the oracle judges them with the reading 'content is a function of the arguments as they "
+               "are when the call is made': the reference is a fresh writer constructed with the values the writer holds now, on "
+               "arguments rebuilt from the specification with the same edits re-applied; the correspondence accepts 'wrote' or 'no "
+               "visible change' for a rewrite from another version of the arguments and binds the model's 'equal' only within one version",
+               "not varied: re-assigning writer.scenario / writer.planning_problem_set (equivalent to constructing a writer for the other "
+               "objects), setter location = None (no constructor call is equivalent), decimal_precision 0 or > 12 (quantifier: 1..12)",
+               "the model's Input is a value: that a write call leaves the scenario / planning-problem objects it was given as they "
                "were is not modelled but checked by the oracle — every reference file is written from arguments rebuilt from the "
                "specification, and after every history a newly constructed writer per input and format writes the history's own "
                "objects once more",
@@ -62,8 +76,94 @@ REQUIRED_BUCKETS = ["fmt/xml", "fmt/pb", "kind/full", "kind/scenario", "same-wri
                     "mode/always-existing", "name/default", "name/collision", "pre-existing", "two-inputs", "precision/1",
                     "precision/12", "precision/default", "via/class", "dates-differ", "raising-write",
                     "write-after-raising-write", "other-writer-raised-before", "lanelet-type/empty", "goal/lanelets",
-                    "probe-after-history", "probe-after-other-format"]
+                    "probe-after-history", "probe-after-other-format",
+                    "value/int-coordinates", "scenario/traffic-sign", "scenario/traffic-light", "value/empty-planning-problem-set",
+                    "value/empty-tags", "value/large-magnitude", "ctor/some-arguments-explicit", "ctor/numpy-precision",
+                    "ctor/default-file-format", "write/check-validity", "write/keyword-arguments", "ask/input-raises",
+                    "write/no-such-directory", "write-after-failed-call", "setglobal-then-write", "set-then-write",
+                    "edit-then-write", "query-then-write", "queryw-then-write"]
 WORKERS = {"quick": 1, "thorough": 8}
+
+# Every constructor parameter, method parameter, public member, instance attribute and module global of the writer classes
+# that can influence what C15 observes, with how the generator varies it.  check_dimensions() compares the table with the real
+# signatures on every run: a parameter / member / attribute the table does not know stops the run (exit 2).
+DIMENSIONS = {
+    "ctor": {   # FileWriter.__init__ (= XMLFileWriter / ProtobufFileWriter) and CommonRoadFileWriter.__init__
+        "scenario": "1..2 generated inputs per history; lanelet types 0..2, traffic sign / light present or not, obstacle coordinates float or "
+                    "int, empty or non-empty tags, location None / given; edited in place between writes (edit ops); queried (query ops)",
+        "planning_problem_set": "0 (empty set), 1 or 2 planning problems; goal by shape or by lanelets; a creator that raises; add_planning_problem between writes",
+        "author": "each of author / affiliation / source / tags / location is given explicitly or left None per WRITER (new-op option "
+                  "'explicit'), and re-assigned after construction / between writes (set ops)",
+        "affiliation": "see author", "source": "see author",
+        "tags": "see author; explicit set is a different object than scenario.tags; empty set; scenario.tags edited in place (edit op)",
+        "location": "see author; plain instance attribute, assigned by set ops",
+        "decimal_precision": "1..12, default (omitted), int or numpy.int64; 0 and > 12 are outside the quantifier (precisions 1..12)",
+        "file_format": "XML / PROTOBUF; omitted (default XML) through the facade",
+    },
+    "write_to_file": {
+        "filename": "None (default name), pool of 3 colliding names, '', a name in a directory that does not exist",
+        "overwrite_existing_file": "ALWAYS / SKIP / ASK_USER_INPUT with input() answering n / y / '' / no / raising EOFError; positional or keyword",
+        "check_validity": "False / True (write option)",
+    },
+    "write_scenario_to_file": {"filename": "as write_to_file", "overwrite_existing_file": "as write_to_file"},
+    "members": {   # public members of XMLFileWriter / ProtobufFileWriter / CommonRoadFileWriter
+        "author": "property + setter: set ops", "affiliation": "set ops", "source": "set ops", "tags": "set ops",
+        "root_node": "XML only: read by query ops; the setter only warns — set ops assign it and nothing may change",
+        "write_to_file": "write ops", "write_scenario_to_file": "write ops",
+        "check_validity_of_commonroad_file": "static, pure: called on the last written content by query ops",
+    },
+    "instance": {  # vars(writer) after construction
+        "scenario": "not re-assigned (would be a writer for another scenario: same as constructing one)", "planning_problem_set": "as scenario",
+        "location": "set ops", "_author": "via setter", "_affiliation": "via setter", "_source": "via setter", "_tags": "via setter",
+        "_decimal_precision": "private; fixed at construction", "_root_node": "private state (model: Writer.root / date)",
+        "_commonroad_msg": "private state (model: Writer.root / date)", "_file_format": "facade: fixed at construction",
+        "_file_writer": "facade: the format writer; setters are reached through it",
+    },
+    "module": {"precision.decimals": "assigned by user code between calls (setglobal ops), model Op.setGlobal",
+               "OverwriteExistingFile": ["ASK_USER_INPUT", "ALWAYS", "SKIP"], "FileFormat": ["XML", "PROTOBUF"]},
+}
+
+
+def check_dimensions():
+    """Compare DIMENSIONS with the real classes; anything the table does not know is an infrastructure error (exit 2)."""
+    import inspect
+    from common import InfraError
+    from commonroad.common.file_writer import CommonRoadFileWriter
+    from commonroad.common.util import FileFormat
+    from commonroad.common.writer.file_writer_interface import DecimalPrecision, FileWriter, OverwriteExistingFile
+    from commonroad.common.writer.file_writer_protobuf import ProtobufFileWriter
+    from commonroad.common.writer.file_writer_xml import XMLFileWriter
+    from commonroad.planning.planning_problem import PlanningProblemSet
+    from commonroad.scenario.scenario import Scenario, Tag
+    unknown = []
+    classes = (FileWriter, XMLFileWriter, ProtobufFileWriter, CommonRoadFileWriter)
+    for cls in classes:
+        for n in list(inspect.signature(cls.__init__).parameters)[1:]:
+            if n not in DIMENSIONS["ctor"]:
+                unknown.append(f"{cls.__name__}.__init__({n})")
+        for meth in ("write_to_file", "write_scenario_to_file"):
+            for n in list(inspect.signature(getattr(cls, meth)).parameters)[1:]:
+                if n not in DIMENSIONS[meth]:
+                    unknown.append(f"{cls.__name__}.{meth}({n})")
+        for n, _ in inspect.getmembers(cls):
+            if not n.startswith("_") and n not in DIMENSIONS["members"]:
+                unknown.append(f"{cls.__name__}.{n}")
+    sc = Scenario(0.1, author="a", affiliation="b", source="c", tags={Tag.URBAN})
+    for obj in (XMLFileWriter(sc, PlanningProblemSet()), ProtobufFileWriter(sc, PlanningProblemSet()), CommonRoadFileWriter(sc, PlanningProblemSet())):
+        for n in vars(obj):
+            if n not in DIMENSIONS["instance"]:
+                unknown.append(f"{type(obj).__name__} instance attribute {n}")
+    if sorted(m.name for m in OverwriteExistingFile) != sorted(DIMENSIONS["module"]["OverwriteExistingFile"]):
+        unknown.append(f"OverwriteExistingFile members {[m.name for m in OverwriteExistingFile]}")
+    if sorted(m.name for m in FileFormat) != sorted(DIMENSIONS["module"]["FileFormat"]):
+        unknown.append(f"FileFormat members {[m.name for m in FileFormat]}")
+    for n in vars(DecimalPrecision):
+        if not n.startswith("__") and n != "decimals":
+            unknown.append(f"DecimalPrecision.{n}")
+    if unknown:
+        raise InfraError("C15 dimension table (harness/c15.py DIMENSIONS) does not know: " + ", ".join(unknown)
+                         + " — decide how the generator varies it and add it to the table")
+
 
 METHOD = {"full": "write_to_file", "scenario": "write_scenario_to_file"}
 POOL = ["f0.xml", "sub/f1.pb", "f2"]
@@ -100,7 +200,9 @@ def gen_input(r, k):
     return {"id": k, "name": bench_name(k), "dt": r.choice([0.1, 0.04, 0.2]), "nl": r.randint(2, 4),
             "width": r.choice([3.0, 3.5, 2.123456789]), "seg": r.choice([10.0, 7.25, 12.987654321]),
             "probe_s": gen_probe(r), "probe_p": gen_probe(r), "vals": [gen_value(r) for _ in range(12)],
-            "steps": r.randint(2, 5), "npp": r.choice([1, 1, 2]), "tags": r.sample(["URBAN", "HIGHWAY", "INTERSECTION", "SIMULATED"], r.randint(1, 3)),
+            "steps": r.randint(2, 5), "npp": r.choice([0, 1, 1, 1, 2]),
+            "tags": r.sample(["URBAN", "HIGHWAY", "INTERSECTION", "SIMULATED"], r.choice([0, 1, 1, 2, 3])),
+            "int_coords": r.random() < 0.3, "big": r.choice([None, None, 123456789.123456, 98765.4321012345]), "sign": r.random() < 0.35, "light": r.random() < 0.35,
             "location": r.choice([None, [2867714, 48.262333, 11.668775], [r.randint(1, 10 ** 6), r.uniform(-80, 80), r.uniform(-170, 170)]]),
             "args": r.choice(["scenario", "explicit"]),
             # per lanelet 0..2 lanelet types (0: the constructor default, an empty set — the writers fill in a default)
@@ -148,14 +250,27 @@ def build_input(spec):
         return InitialState(position=np.array([x, y]), orientation=v[3] % 1.0 - 0.5, velocity=vel, acceleration=v[4], yaw_rate=v[5] * 0.1,
                             slip_angle=0.0, time_step=t)
 
-    static = StaticObstacle(1000 + 10 * k, ObstacleType.PARKED_VEHICLE, Rectangle(4.0 + v[6], 2.0), init(spec["probe_s"], v[7], 0.0),
+    static = StaticObstacle(1000 + 10 * k, ObstacleType.PARKED_VEHICLE, Rectangle(4.0 + v[6], 2.0), init(spec["probe_s"], spec.get("big") or v[7], 0.0),
                             signal_series=[])
-    states = [KSState(position=np.array([5.0 + i * v[8], v[9] * 0.1]), orientation=v[10] % 1.0 * 0.01, velocity=5.0 + v[11],
-                      steering_angle=0.0, time_step=i) for i in range(1, spec["steps"] + 1)]
+    if spec.get("int_coords"):       # int where float is usual: integer position arrays, int velocity
+        states = [KSState(position=np.array([5 + i, 0]), orientation=0, velocity=5, steering_angle=0.0, time_step=i)
+                  for i in range(1, spec["steps"] + 1)]
+    else:
+        states = [KSState(position=np.array([5.0 + i * v[8], v[9] * 0.1]), orientation=v[10] % 1.0 * 0.01, velocity=5.0 + v[11],
+                          steering_angle=0.0, time_step=i) for i in range(1, spec["steps"] + 1)]
     shape = Rectangle(4.5, 1.8 + v[0] * 0.1)
     dynamic = DynamicObstacle(1001 + 10 * k, ObstacleType.CAR, shape, init(5.0, v[9] * 0.1, 5.0 + v[11]),
                               TrajectoryPrediction(Trajectory(1, states), shape), signal_series=[])
     sc.add_objects([static, dynamic])
+    if spec.get("sign"):
+        from commonroad.scenario.traffic_sign import TrafficSign, TrafficSignElement, TrafficSignIDZamunda
+        sc.add_objects(TrafficSign(500 + 10 * k, [TrafficSignElement(TrafficSignIDZamunda.MAX_SPEED, ["13.5"])], {10 * k + 1},
+                                   np.array([1.0 + v[2], w])), lanelet_ids={10 * k + 1})
+    if spec.get("light"):
+        from commonroad.scenario.traffic_light import TrafficLight, TrafficLightCycle, TrafficLightCycleElement, TrafficLightState
+        cyc = TrafficLightCycle([TrafficLightCycleElement(TrafficLightState.RED, 2 + int(v[1])), TrafficLightCycleElement(TrafficLightState.GREEN, 3)],
+                                time_offset=int(v[4]))
+        sc.add_objects(TrafficLight(600 + 10 * k, np.array([seg - 0.5, -w]), cyc), lanelet_ids={10 * k + 1})
     pps = []
     for j in range(spec["npp"]):
         t_lo, t_hi = (5.5, 10.5) if spec.get("bad_goal_time") and j == 0 else (5 + j, 10 + j)
@@ -169,7 +284,111 @@ def build_input(spec):
         extra = dict(author=f"Author {k}", affiliation=f"Affiliation <{k}>", source=f"source&{k}", tags=tags, location=loc)
     else:
         extra = {}
-    return {"scenario": sc, "pps": pp_set, "extra": extra, "spec": spec}
+    inp = {"scenario": sc, "pps": pp_set, "extra": extra, "spec": spec}
+    for e in spec.get("edits", []):           # edits a history made in place (for the reference: the arguments as they are NOW)
+        apply_edit(inp, e)
+    return inp
+
+
+# ------------------------------------------------------------------------------------------------ edits, queries, setters
+
+EDITS = ["add_dynamic", "remove_dynamic", "add_pp", "retag", "lanelet_type_add", "dt"]
+QUERIES = ["occupancy", "find_lanelet", "polygons", "states", "pp_lookup", "eq", "assign"]
+SETTABLE = ["author", "affiliation", "source", "tags", "location", "root_node"]
+
+
+def apply_edit(inp, kind):
+    """In-place edit of the objects a writer was given (the user goes on working with the scenario between two writes).
+    None of them changes what describe() recognises (input id, block structure, probe coordinates)."""
+    import numpy as np
+    from commonroad.common.util import Interval
+    from commonroad.geometry.shape import Rectangle
+    from commonroad.planning.goal import GoalRegion
+    from commonroad.planning.planning_problem import PlanningProblem
+    from commonroad.prediction.prediction import TrajectoryPrediction
+    from commonroad.scenario.lanelet import LaneletType
+    from commonroad.scenario.obstacle import DynamicObstacle, ObstacleType
+    from commonroad.scenario.scenario import Tag
+    from commonroad.scenario.state import InitialState, KSState
+    from commonroad.scenario.trajectory import Trajectory
+    sc, pps, k = inp["scenario"], inp["pps"], inp["spec"]["id"]
+    if kind == "add_dynamic":
+        oid = max(o.obstacle_id for o in sc.obstacles) + 1
+        if oid < 1009 + 10 * k:
+            sh = Rectangle(3.0, 1.5)
+            st = [KSState(position=np.array([2.0 + t, 0.25]), orientation=0.0, velocity=1.0, steering_angle=0.0, time_step=t) for t in (1, 2)]
+            sc.add_objects(DynamicObstacle(oid, ObstacleType.BICYCLE, sh, InitialState(position=np.array([2.0, 0.25]), orientation=0.0, velocity=1.0,
+                                                                                         acceleration=0.0, yaw_rate=0.0, slip_angle=0.0, time_step=0),
+                                           TrajectoryPrediction(Trajectory(1, st), sh), signal_series=[]))
+    elif kind == "remove_dynamic":
+        dyn = sorted(sc.dynamic_obstacles, key=lambda o: o.obstacle_id)
+        if dyn:
+            sc.remove_obstacle(dyn[-1])
+    elif kind == "add_pp":
+        ids = sorted(pps.planning_problem_dict)
+        if ids and ids[-1] < 2008 + 10 * k:
+            goal = GoalRegion([KSState(time_step=Interval(3, 9), position=Rectangle(2.0, 2.0, np.array([4.0, 0.0])))])
+            pps.add_planning_problem(PlanningProblem(ids[-1] + 1, InitialState(position=np.array([0.5, 0.0]), orientation=0.0, velocity=1.0,
+                                                                            acceleration=0.0, yaw_rate=0.0, slip_angle=0.0, time_step=0), goal))
+    elif kind == "retag":
+        sc.tags.add(Tag.RURAL)                        # the set object a writer may share
+    elif kind == "lanelet_type_add":
+        sc.lanelet_network.lanelets[0].lanelet_type.add(LaneletType.BUS_LANE)
+    elif kind == "dt":
+        sc.dt = 0.05 if sc.dt != 0.05 else 0.1
+
+
+def run_query(inp, kind):
+    """Read-only use of the objects between two writes (fills caches, materialises lazily computed attributes); whatever a
+    query returns or raises is not C15's business."""
+    import numpy as np
+    sc, pps = inp["scenario"], inp["pps"]
+
+    def q():
+        if kind == "occupancy":
+            sc.occupancies_at_time_step(1)
+            for o in sc.dynamic_obstacles:
+                o.occupancy_at_time(1)
+        elif kind == "find_lanelet":
+            sc.lanelet_network.find_lanelet_by_position([np.array([1.0, 0.0]), np.array([1e6, 0.0])])
+            sc.lanelet_network.find_lanelet_by_shape(sc.static_obstacles[0].occupancy_at_time(0).shape)
+        elif kind == "polygons":
+            for la in sc.lanelet_network.lanelets:
+                la.polygon.shapely_object.area
+                la.distance
+        elif kind == "states":
+            for o in sc.dynamic_obstacles:
+                o.state_at_time(2)
+                o.prediction.trajectory.state_list[0].attributes
+        elif kind == "pp_lookup":
+            for i, pp in pps.planning_problem_dict.items():
+                pps.find_planning_problem_by_id(i)
+                pp.goal_reached(sc.dynamic_obstacles[0].prediction.trajectory) if sc.dynamic_obstacles else None
+        elif kind == "eq":
+            sc == sc
+            str(sc.scenario_id)
+            repr(sc.lanelet_network)
+        elif kind == "assign":
+            sc.obstacles_by_position_intervals([])
+            sc.obstacle_states_at_time_step(1)
+    with contextlib.redirect_stdout(io.StringIO()):
+        call(q)
+
+
+def explicit_value(spec, attr):
+    """JSON token of the value a writer is given explicitly for `attr` (distinct from what the scenario carries)."""
+    k = spec["id"]
+    return {"author": f"Author {k}", "affiliation": f"Affiliation <{k}>", "source": f"source&{k}",
+            "tags": sorted(set(spec["tags"]) | {"COMFORT"}), "location": [777 + k, 12.5, -33.25]}[attr]
+
+
+def materialise(attr, token):
+    from commonroad.scenario.scenario import Location, Tag
+    if attr == "tags":
+        return {Tag[t] for t in token}
+    if attr == "location":
+        return None if token is None else Location(geo_name_id=token[0], gps_latitude=token[1], gps_longitude=token[2])
+    return token
 
 
 # ------------------------------------------------------------------------------------------------ observing real files
@@ -292,16 +511,25 @@ def expected_ids(inp, kind):
 
 # ------------------------------------------------------------------------------------------------ running the real code
 
-def make_writer(inp, fmt, prec, via):
+def make_writer(inp, fmt, prec, via, opts=None, overrides=None):
+    """A writer for `inp`. opts: {"explicit": [attrs given explicitly], "np": precision as numpy.int64, "fmt_default": the
+    facade without file_format (XML only)}; overrides: {attr: token} — values given explicitly (constructor or, for the
+    reference of a writer whose setters were used, the values it holds now)."""
+    import numpy as np
     from commonroad.common.file_writer import CommonRoadFileWriter
     from commonroad.common.util import FileFormat
     from commonroad.common.writer.file_writer_protobuf import ProtobufFileWriter
     from commonroad.common.writer.file_writer_xml import XMLFileWriter
+    opts = opts or {}
     kw = dict(inp["extra"])
+    for attr, token in (overrides or {}).items():
+        kw[attr] = materialise(attr, token)
     if prec is not None:
-        kw["decimal_precision"] = prec
+        kw["decimal_precision"] = np.int64(prec) if opts.get("np") else prec
     if via == "class":
         return (XMLFileWriter if fmt == "xml" else ProtobufFileWriter)(inp["scenario"], inp["pps"], **kw)
+    if fmt == "xml" and opts.get("fmt_default"):
+        return CommonRoadFileWriter(inp["scenario"], inp["pps"], **kw)
     return CommonRoadFileWriter(inp["scenario"], inp["pps"], file_format=FileFormat.XML if fmt == "xml" else FileFormat.PROTOBUF, **kw)
 
 
@@ -353,37 +581,49 @@ REF_DATE = [2001, 2, 3, 4, 5]
 DATES = [[2031, 5, 17, 8, 30], [2031, 5, 18, 23, 59], [1999, 12, 31, 0, 0]]
 
 
-def do_write(writer, kind, file, mode, answer, date=None):
-    """One write call with stdout swallowed, input() scripted and the clock set. -> ('ok', None) | ('err', cls, msg)"""
+def do_write(writer, kind, file, mode, answer, date=None, opts=None):
+    """One write call with stdout swallowed, input() scripted ("EOF": it raises EOFError) and the clock set; opts:
+    {"cv": check_validity=True (write_to_file only), "kw": keyword arguments}. -> ('ok', None) | ('err', cls, msg)"""
     from commonroad.common.file_writer import OverwriteExistingFile
     m = {"always": OverwriteExistingFile.ALWAYS, "skip": OverwriteExistingFile.SKIP, "ask": OverwriteExistingFile.ASK_USER_INPUT}[mode]
-    asked = []
+    opts = opts or {}
 
     def fake_input(prompt=""):
-        asked.append(prompt)
+        if answer == "EOF":
+            raise EOFError("EOF when reading a line")
         return "" if answer is None else answer
 
+    args, kw = (file, m), {}
+    if opts.get("kw"):
+        args, kw = (), {"filename": file, "overwrite_existing_file": m}
+    if opts.get("cv") and kind == "full":
+        kw["check_validity"] = True
     old = builtins.input
     builtins.input = fake_input
     try:
         with contextlib.redirect_stdout(io.StringIO()), clock(date):
-            return call(getattr(writer, METHOD[kind]), file, m)
+            return call(getattr(writer, METHOD[kind]), *args, **kw)
     finally:
         builtins.input = old
 
 
 def reference(inputs, key, cache, refdir):
-    """Content (date erased) and read-back of ONE call on a freshly constructed writer for the arguments as they were given
-    (scenario, planning problems, ... rebuilt from the specification for every reference): (inp, fmt, prec, kind)."""
+    """Content (date erased) and read-back of ONE call on a freshly constructed writer for the arguments as they are at that
+    moment — scenario, planning problems, ... rebuilt from the specification for every reference, with the in-place edits
+    the history made so far re-applied, and with the values the writer was given explicitly or through its setters:
+    key = (inp, fmt, prec, kind[, edits, overrides])."""
     if key in cache:
         return cache[key]
     from commonroad.common.writer.file_writer_interface import precision
-    i, fmt, prec, kind = key
+    i, fmt, prec, kind = key[:4]
+    edits = list(key[4]) if len(key) > 4 else []
+    over = dict(key[5]) if len(key) > 5 else {}
+    over = {a: json.loads(t) for a, t in over.items()}
     saved = precision.decimals
     path = os.path.join(refdir, f"ref{len(cache)}")
     try:
-        # the arguments as they were GIVEN: rebuilt from the specification, untouched by any call of the history
-        w = make_writer(build_input(inputs[i]["spec"]), fmt, prec, "facade")
+        spec = dict(inputs[i]["spec"], edits=list(inputs[i]["spec"].get("edits", [])) + edits)
+        w = make_writer(build_input(spec), fmt, prec, "facade", None, over)
         r = do_write(w, kind, path, "always", None, REF_DATE)
         if r[0] == "ok" and os.path.isfile(path):
             content = erase_date(open(path, "rb").read())
@@ -394,6 +634,10 @@ def reference(inputs, key, cache, refdir):
     finally:
         precision.decimals = saved
     return cache[key]
+
+
+def over_key(over):
+    return tuple(sorted((a, json.dumps(t, sort_keys=True)) for a, t in over.items()))
 
 
 def run_case(ctx, case, model=True):
@@ -417,36 +661,84 @@ def run_case(ctx, case, model=True):
     try:
         writers, meta, outcomes, events = {}, {}, [], []
         gprecs, dates, reads, erased = [], [], [], []     # global precision after every op; date per op; per visible write
+        edits = {i: [] for i in range(len(inputs))}       # in-place edits per input so far
+        over, last_content = {}, {}                       # per writer: values given explicitly / by setters; last file written
+        vis, op_version = {}, {}      # per op index: (erased content, read-back) of a visible write; version of the arguments
         order = []                       # labels in order of construction (model index)
         for op in case["ops"]:
+            if op[0] == "setglobal":             # user code assigns the public module global
+                precision.decimals = op[1]
+                outcomes.append("done")
+                gprecs.append(int(precision.decimals))
+                dates.append("")
+                events.append(("setglobal", op[1]))
+                continue
+            if op[0] == "edit":                  # in-place edit of the objects the writers were given (not a model op)
+                call(apply_edit, inputs[op[1]], op[2])
+                edits[op[1]].append(op[2])
+                events.append(("edit", op[1], op[2]))
+                continue
+            if op[0] == "query":                 # read-only use of the objects (not a model op)
+                run_query(inputs[op[1]], op[2])
+                events.append(("query", op[1], op[2]))
+                continue
+            if op[0] in ("set", "queryw"):
+                label = op[1]
+                if label not in writers:
+                    continue
+                target = getattr(writers[label], "_file_writer", writers[label])      # the facade exposes no setters itself
+                if op[0] == "set":
+                    _, _, attr, token = op
+                    if attr == "root_node":
+                        from lxml import etree
+                        if hasattr(type(target), "root_node"):
+                            with contextlib.redirect_stderr(io.StringIO()):
+                                call(setattr, target, "root_node", etree.Element("other"))
+                    else:
+                        r = call(setattr, target, attr, materialise(attr, token))
+                        if r[0] == "ok":
+                            over[label][attr] = token
+                    events.append(("set", label, attr))
+                else:
+                    if op[2] == "root_node":
+                        call(lambda: list(getattr(target, "root_node", [])))
+                    elif last_content.get(label) is not None:
+                        with contextlib.redirect_stdout(io.StringIO()):
+                            call(type(target).check_validity_of_commonroad_file, last_content[label])
+                    events.append(("queryw", label, op[2]))
+                continue
             if op[0] == "new":
-                _, label, fmt, i, prec, via = op
-                r = call(make_writer, inputs[i], fmt, prec, via)
+                _, label, fmt, i, prec, via = op[:6]
+                nopts = op[6] if len(op) > 6 and op[6] else {}
+                over[label] = {a: explicit_value(case["inputs"][i], a) for a in nopts.get("explicit", [])}
+                r = call(make_writer, inputs[i], fmt, prec, via, nopts, over[label])
                 if r[0] == "ok":
                     writers[label] = r[1]
-                    meta[label] = {"fmt": fmt, "inp": i, "prec": 4 if prec is None else prec, "writes": 0, "born": len(events)}
+                    meta[label] = {"fmt": fmt, "inp": i, "prec": 4 if prec is None else prec, "writes": 0, "born": len(events),
+                                   "opts": nopts}
                     outcomes.append({"created": len(order)})
                     order.append(label)
                     events.append(("new", label))
                 else:
                     outcomes.append({"err": r[1]})
                     ctx.fail(f"C15/{fmt}.__init__/raises-{r[1]}", f"constructing a {fmt} writer raised {r[2]}", case)
-                gprecs.append(precision.decimals)
+                gprecs.append(int(precision.decimals))
                 dates.append("")
                 continue
             _, label, kind, file, mode, answer = op[:6]
             date = op[6] if len(op) > 6 else None
+            wopts = op[7] if len(op) > 7 and op[7] else {}
             if label not in writers:
                 outcomes.append({"err": "index"})
-                gprecs.append(precision.decimals)
+                gprecs.append(int(precision.decimals))
                 dates.append("")
                 continue
             mt = meta[label]
             before = {rel: open(p, "rb").read() for rel, p in list_files(work).items()}
             for p in list_files(work).values():
                 os.utime(p, ns=(10 ** 9, 10 ** 9))
-            r = do_write(writers[label], kind, file, mode, answer, date)
-            gprecs.append(precision.decimals)
+            r = do_write(writers[label], kind, file, mode, answer, date, wopts)
+            gprecs.append(int(precision.decimals))
             after = list_files(work)
             now = {rel: open(p, "rb").read() for rel, p in after.items()}
             # visible change: a new file, or other bytes than before (date stamp aside)
@@ -454,8 +746,9 @@ def run_case(ctx, case, model=True):
             # performed: also a rewrite with the same bytes (seen by the time stamp) unless the call was told to keep the file
             keep = mode == "skip" or (mode == "ask" and answer == "n")
             changed = sorted(set(visible) | {rel for rel, p in after.items() if not keep and os.stat(p).st_mtime_ns != 10 ** 9})
-            ev = {"label": label, "kind": kind, "file": file, "mode": mode, "changed": changed, "result": r[0],
-                  "prior_writes": mt["writes"], "since": [e for e in events[mt["born"] + 1:]]}
+            ev = {"label": label, "kind": kind, "file": file, "mode": mode, "changed": changed, "result": r[0], "answer": answer,
+                  "prior_writes": mt["writes"], "since": [e for e in events[mt["born"] + 1:]], "opts": wopts,
+                  "edits": tuple(edits[mt["inp"]]), "over": over_key(over[label])}
             seen_date = ""
             if r[0] == "err":
                 outcomes.append({"err": r[1]})
@@ -466,12 +759,14 @@ def run_case(ctx, case, model=True):
                 d = call(describe, now[visible[0]], names)
                 outcomes.append({"wrote": [visible[0], d[1] if d[0] == "ok" else {"unreadable": d[1]}]})
                 rb = call(_read_bytes, now[visible[0]], mt["fmt"], refdir)
-                reads.append(None if rb[0] == "err" else (mt["fmt"], rb[1][1] or json.dumps(rb[1][0], sort_keys=True)))
-                erased.append(erase_date(now[visible[0]]))
+                vis[len(outcomes) - 1] = (erase_date(now[visible[0]]),
+                                          None if rb[0] == "err" else (mt["fmt"], rb[1][1] or json.dumps(rb[1][0], sort_keys=True)))
+            op_version[len(outcomes) - 1] = (tuple(edits[mt["inp"]]), over_key(over[label]))
             if r[0] == "ok" and changed:
                 rel = visible[0] if visible else changed[0]
                 ev["content"] = now[rel]
                 ev["path"] = rel
+                last_content[label] = now[rel]
                 mt["writes"] += 1
                 d = call(describe, now[rel], names)
                 seen_date = (d[1].get("date") or "") if d[0] == "ok" else ""
@@ -495,7 +790,7 @@ def run_case(ctx, case, model=True):
                 fs.append(d[1] if d[0] == "ok" else {"unreadable": d[1]})
             else:
                 fs.append(None)
-        impl = {"outcomes": outcomes, "fs": fs, "gprecs": gprecs, "reads": classes(reads), "erased": classes(erased)}
+        impl = {"outcomes": outcomes, "fs": fs, "gprecs": gprecs, "readable": [], "equalities": []}
 
         # ---- buckets
         classify(ctx, case, meta, events)
@@ -508,36 +803,60 @@ def run_case(ctx, case, model=True):
             for op in case["ops"]:
                 if op[0] == "new":
                     mops.append(["new", op[2], op[3], 4 if op[4] is None else op[4]])
-                else:
-                    mops.append(["write", idx.get(op[1], 10 ** 6), op[2], op[3], op[4], op[5] == "n", dates[len(mops)]])
+                elif op[0] == "setglobal":
+                    mops.append(["setglobal", op[1]])
+                elif op[0] == "write":
+                    ans_tok = {"n": "n", "EOF": "eof"}.get(op[5], "other")
+                    mops.append(["write", idx.get(op[1], 10 ** 6), op[2], op[3], op[4], ans_tok, dates[len(mops)]])
+                # edit / query / set / queryw: the model's Input is a value, its symbolic image does not change
             minputs = []
             for sp in case["inputs"]:
-                mi = {"id": sp["id"], "name": sp["name"]}
-                if sp.get("bad_goal_time"):
+                mi = {"id": sp["id"], "name": sp["name"], "hasPP": sp["npp"] > 0}
+                if sp.get("bad_goal_time") and sp["npp"] > 0:
                     mi.update(xmlErr="assert", pbErr="type")
                 minputs.append(mi)
-            ans = ctx.driver.ask("C15", "run", {"gprec": case.get("g0", 4), "inputs": minputs, "pre": case["pre"], "ops": mops, "paths": paths})
+            ans = ctx.driver.ask("C15", "run", {"gprec": case.get("g0", 4), "inputs": minputs, "pre": case["pre"], "ops": mops,
+                                                "paths": paths, "unwritable": sorted({op[3] for op in case["ops"]
+                                                                                      if op[0] == "write" and op[3] and op[3].startswith("nodir/")})})
             # outcomes are compared by what is visible in the directory: a rewrite with the content that was there
             # (date stamp aside) is no change
-            cur = {p: {"foreign": k} for p, k in case["pre"]}
-            mout, mreads, merased = [], [], []
-            for o in ans["outcomes"]:
+            cur, cur_ver = {p: {"foreign": k} for p, k in case["pre"]}, {}
+            mout, mvis = [], {}
+            iout = list(outcomes)
+            for j, o in enumerate(ans["outcomes"]):
                 if o == "skipped":
                     o = "no-change"
                 elif isinstance(o, dict) and "wrote" in o:
                     p, d = o["wrote"]
                     er = o["erased"]
-                    if cur.get(p) == er:
+                    ver = op_version.get(j)
+                    if cur.get(p) == er and cur_ver.get(p) == ver:
                         new_o = "no-change"
+                    elif cur.get(p) == er:
+                        # the same symbolic content written from another version of the arguments (a setter / an in-place edit
+                        # in between): whether the bytes changed is the oracle's business — both answers are accepted
+                        new_o = "wrote-or-no-change"
+                        if j < len(iout) and (iout[j] == "no-change" or iout[j] == {"wrote": [p, d]}):
+                            iout[j] = "wrote-or-no-change"
                     else:
-                        mreads.append(None if o["read"] is None else json.dumps(o["read"]))
-                        merased.append(json.dumps(er, sort_keys=True))
                         new_o = {"wrote": [p, d]}
-                    cur[p] = er
+                    if j in vis:
+                        mvis[j] = (json.dumps(er, sort_keys=True), None if o["read"] is None else json.dumps(o["read"]))
+                    cur[p], cur_ver[p] = er, ver
                     o = new_o
                 mout.append(o)
-            ctx.compare(case, impl, {"outcomes": mout, "fs": ans["fs"], "gprecs": ans["gprecs"], "reads": classes(mreads),
-                                     "erased": classes(merased)}, "writer history vs CR.Writer.run repaired symCodec")
+            impl["outcomes"] = iout
+            # equality patterns (which produced files are equal date-aside / read back alike): the model's Input is a value, so
+            # its prediction "equal" only binds for files written from the same version of the arguments (same in-place edits,
+            # same explicit / set values); "different" in the model must be different in the implementation
+            js = sorted(set(vis) & set(mvis))
+            vers = [op_version[j] for j in js]
+            impl["readable"] = [vis[j][1] is not None for j in js]
+            impl["equalities"] = eq_violations([vis[j][0] for j in js], [mvis[j][0] for j in js], vers, "erased") + \
+                eq_violations([vis[j][1] for j in js], [mvis[j][1] for j in js], vers, "read-back")
+            ctx.compare(case, impl, {"outcomes": mout, "fs": ans["fs"], "gprecs": ans["gprecs"],
+                                     "readable": [mvis[j][1] is not None for j in js], "equalities": []},
+                        "writer history vs CR.Writer.run repaired symCodec")
 
         # ---- oracle: content is a function of the writer's own inputs
         cache = {}
@@ -550,10 +869,10 @@ def run_case(ctx, case, model=True):
         for i in sorted(written):
             for fmt in ("xml", "pb"):
                 kind = "full"
-                ref = reference(inputs, (i, fmt, 4, kind), cache, refdir)
+                ref = reference(inputs, (i, fmt, 4, kind, tuple(edits[i]), ()), cache, refdir)
                 if ref["content"] is None:
                     kind = "scenario"
-                    ref = reference(inputs, (i, fmt, 4, kind), cache, refdir)
+                    ref = reference(inputs, (i, fmt, 4, kind, tuple(edits[i]), ()), cache, refdir)
                     if ref["content"] is None:
                         continue
                 path = os.path.join(refdir, f"probe_{i}_{fmt}")
@@ -579,9 +898,9 @@ def run_case(ctx, case, model=True):
             fmt, kind = mt["fmt"], ev["kind"]
             site = f"C15/{fmt}.{METHOD[kind]}"
             if ev["result"] == "err":
-                if ev["file"] == "":
-                    ctx.excluded += 1        # an empty file name is not a file name; the text says nothing about it
-                elif reference(inputs, (mt["inp"], fmt, mt["prec"], kind), cache, refdir)["content"] is None:
+                if ev["file"] == "" or (ev["file"] or "").startswith("nodir/") or ev["answer"] == "EOF":
+                    ctx.excluded += 1        # no file name / no such directory / input() raised: the text says nothing about it
+                elif reference(inputs, (mt["inp"], fmt, mt["prec"], kind, ev["edits"], ev["over"]), cache, refdir)["content"] is None:
                     ctx.excluded += 1        # one call on a fresh identical writer raises as well: this input cannot be written
                 else:
                     ctx.fail(f"{site}/raises-{ev['err'][1]}", f"{METHOD[kind]}({ev['file']!r}, {ev['mode']}) raised {ev['err'][2]}", case)
@@ -590,7 +909,7 @@ def run_case(ctx, case, model=True):
                 continue
             if len(ev["changed"]) > 1:
                 ctx.fail(f"{site}/touched-several-files", f"one call changed {ev['changed']}", case)
-            ref = reference(inputs, (mt["inp"], fmt, mt["prec"], kind), cache, refdir)
+            ref = reference(inputs, (mt["inp"], fmt, mt["prec"], kind, ev["edits"], ev["over"]), cache, refdir)
             if ref["content"] is None:
                 continue                      # the single-call baseline itself fails: not this property's business
             got = erase_date(ev["content"])
@@ -600,7 +919,7 @@ def run_case(ctx, case, model=True):
                 for x in reversed(others):
                     p2 = meta[x[1]]["prec"]
                     if p2 != mt["prec"]:
-                        alt = reference(inputs, (mt["inp"], fmt, p2, kind), cache, refdir)
+                        alt = reference(inputs, (mt["inp"], fmt, p2, kind, ev["edits"], ev["over"]), cache, refdir)
                         if alt["content"] == got:
                             obs, why = "precision-of-other-writer", f" — it is the content for decimal_precision={p2}, the precision of a writer constructed in between"
                             break
@@ -615,14 +934,28 @@ def run_case(ctx, case, model=True):
                 if ref["readback"][0] == "ok":
                     ctx.fail(f"{site}/readback-raises-{rb[1]}", f"the file written by {METHOD[kind]} cannot be read back: {rb[2]}", case)
             elif ref["readback"][0] == "ok":
-                if rb[1][0] != expected_ids(inputs[mt["inp"]], kind):
-                    ctx.fail(f"{site}/readback-ids-differ", f"read back {rb[1][0]}, written {expected_ids(inputs[mt['inp']], kind)}", case)
+                if rb[1][0] != ref["readback"][1][0]:
+                    ctx.fail(f"{site}/readback-ids-differ", f"read back {rb[1][0]}, the file of a fresh identical writer reads back {ref['readback'][1][0]}", case)
                 elif rb[1][1] != ref["readback"][1][1] and None not in (rb[1][1], ref["readback"][1][1]):
                     ctx.fail(f"{site}/readback-differs", "the file reads back to a different scenario than the file of a fresh identical writer", case)
         return impl
     finally:
         precision.decimals = g_before
         os.chdir(cwd)
+
+
+def eq_violations(impl_keys, model_keys, versions, what):
+    out = []
+    for a in range(len(impl_keys)):
+        for b in range(a + 1, len(impl_keys)):
+            if impl_keys[a] is None or impl_keys[b] is None or model_keys[a] is None or model_keys[b] is None:
+                continue
+            i_eq, m_eq = impl_keys[a] == impl_keys[b], model_keys[a] == model_keys[b]
+            if m_eq and versions[a] == versions[b] and not i_eq:
+                out.append(f"{what}: produced files {a} and {b} equal in the model, different in the implementation")
+            if i_eq and not m_eq:
+                out.append(f"{what}: produced files {a} and {b} equal in the implementation, different in the model")
+    return out
 
 
 def classes(xs):
@@ -646,6 +979,15 @@ def _read_bytes(content, fmt, refdir):
 def classify(ctx, case, meta, events):
     """Coverage buckets of a history."""
     for sp in case["inputs"]:
+        for flag, tag in (("int_coords", "value/int-coordinates"), ("sign", "scenario/traffic-sign"), ("light", "scenario/traffic-light")):
+            if sp.get(flag):
+                ctx.tag(tag)
+        if sp["npp"] == 0:
+            ctx.tag("value/empty-planning-problem-set")
+        if not sp["tags"]:
+            ctx.tag("value/empty-tags")
+        if sp.get("big"):
+            ctx.tag("value/large-magnitude")
         if any(not t for t in sp.get("ltypes", [["URBAN"]] * 4)[:sp["nl"]]):
             ctx.tag("lanelet-type/empty")
         if sp.get("goal_lanelets"):
@@ -666,6 +1008,36 @@ def classify(ctx, case, meta, events):
                 ctx.tag("precision/default")
             if op[5] == "class":
                 ctx.tag("via/class")
+            o = op[6] if len(op) > 6 and op[6] else {}
+            if o.get("explicit") and len(o["explicit"]) < 5:
+                ctx.tag("ctor/some-arguments-explicit")
+            if o.get("np"):
+                ctx.tag("ctor/numpy-precision")
+            if o.get("fmt_default") and op[2] == "xml" and op[5] == "facade":
+                ctx.tag("ctor/default-file-format")
+    pending = set()          # kinds of non-write operations since the last performed write
+    failed_before = False
+    for e in events:
+        if e[0] in ("setglobal", "set", "edit", "query", "queryw"):
+            pending.add(e[0])
+        elif e[0] == "write":
+            ev = e[2]
+            if ev["opts"].get("cv") and ev["kind"] == "full":
+                ctx.tag("write/check-validity")
+            if ev["opts"].get("kw"):
+                ctx.tag("write/keyword-arguments")
+            if ev["answer"] == "EOF" and ev["result"] == "err":
+                ctx.tag("ask/input-raises")
+                failed_before = True
+            if (ev["file"] or "").startswith("nodir/") and ev["result"] == "err":
+                ctx.tag("write/no-such-directory")
+                failed_before = True
+            if ev.get("content") is not None:
+                for k in pending:
+                    ctx.tag(f"{k}-then-write")
+                pending = set()
+                if failed_before:
+                    ctx.tag("write-after-failed-call")
     wrote_by_sig = {}
     raised, dates_by_sig = set(), {}
     for e in events:
@@ -741,8 +1113,14 @@ def gen_case(ctx):
             prec = r.choice([1, 2, 3, 4, 4, 5, 6, 8, 10, 11, 12, 12, r.randint(1, 12)])
         specs.append((fmt, i, prec))
     labels = [f"w{j}" for j in range(n_w)]
+    explicit = {}
+    for sp in set(specs):              # identical writers are identical in what they are given explicitly, too
+        c = r.random()
+        explicit[sp] = [] if c < 0.55 else (["author", "affiliation", "source", "tags", "location"] if c < 0.65 else
+                                             sorted(r.sample(["author", "affiliation", "source", "tags", "location"], r.randint(1, 3))))
     news = [["new", labels[j], specs[j][0], specs[j][1], None if specs[j][2] == 4 and r.random() < 0.6 else specs[j][2],
-             r.choice(["facade", "facade", "class"])] for j in range(n_w)]
+             r.choice(["facade", "facade", "class"]),
+             {"explicit": explicit[specs[j]], "np": r.random() < 0.15, "fmt_default": r.random() < 0.3}] for j in range(n_w)]
     n_writes = r.randint(1, 7)
     ops, alive, pending = [news[0]], [labels[0]], news[1:]
     writes_left = n_writes
@@ -759,10 +1137,29 @@ def gen_case(ctx):
         last = label
         kind = r.choice(["full", "full", "scenario"])
         c = r.random()
-        file = None if c < 0.2 else ("" if c < 0.23 else r.choice(POOL))
+        file = None if c < 0.2 else ("" if c < 0.23 else ("nodir/f9.xml" if c < 0.28 else r.choice(POOL)))
         c = r.random()
-        mode, answer = ("always", None) if c < 0.5 else (("skip", None) if c < 0.82 else ("ask", r.choice(["n", "y", "", "no"])))
-        ops.append(["write", label, kind, file, mode, answer, None if r.random() < 0.1 else r.choice(DATES)])
+        mode, answer = ("always", None) if c < 0.5 else (("skip", None) if c < 0.8 else ("ask", r.choice(["n", "y", "", "no", "EOF"])))
+        # between two calls: user code assigns the global precision, uses a setter, edits the scenario in place, queries it
+        c = r.random()
+        if c < 0.10:
+            ops.append(["setglobal", r.choice([1, 2, 7, 12, 15])])
+        elif c < 0.20:
+            attr = r.choice(SETTABLE)
+            i_of = next(o[3] for o in ops if o[0] == "new" and o[1] == label)
+            # (location = None is not generated: a constructor cannot be given "no location" when the scenario has one)
+            token = None if attr == "root_node" else ([4242, 1.5, 2.5] if attr == "location" and r.random() < 0.5
+                                                      else (explicit_value(inputs[i_of], attr) if attr in ("tags", "location")
+                                                            else f"{attr} set later {r.randint(0, 9)}"))
+            ops.append(["set", r.choice(alive), attr, token])
+        elif c < 0.30:
+            ops.append(["edit", r.randrange(n_in), r.choice(EDITS)])
+        elif c < 0.42:
+            ops.append(["query", r.randrange(n_in), r.choice(QUERIES)])
+        elif c < 0.47:
+            ops.append(["queryw", r.choice(alive), r.choice(["root_node", "validity"])])
+        ops.append(["write", label, kind, file, mode, answer, None if r.random() < 0.1 else r.choice(DATES),
+                    {"cv": r.random() < 0.08, "kw": r.random() < 0.3}])
         writes_left -= 1
     pre = []
     for k in range(r.choice([0, 0, 1, 2])):
@@ -773,6 +1170,7 @@ def gen_case(ctx):
 
 
 def run(ctx):
+    check_dimensions()
     for p in sorted(glob.glob(os.path.join(CORPUS_DIR, "C15", "*.json"))):
         run_case(ctx, json.load(open(p)))
     for _ in range(ctx.n(300)):
